@@ -73,9 +73,10 @@ def oracle_steps(sc, obs):
             bad.append(('step-past-tf', 'a stored stamp %r lies beyond the end time %r' % (st[-1], tfmax)))
     pos = 0
     for sg in obs['segs']:
-        if sg['nstamps'] and not sg['busted'] and sg['t'] > max(sg['tf'], st[0] if st else 0) and sg['used'] > 0 \
+        moved = sg['used'] > 0 or sg['t'] > sg.get('t_start', sg['t'])     # the clock advanced during this segment
+        if sg['nstamps'] and not sg['busted'] and sg['t'] > max(sg['tf'], st[0] if st else 0) and moved \
                 and sg['t'] - sg['tf'] > 1e-12 * max(1.0, abs(sg['tf'])):
-            bad.append(('time-past-tf', 'time %r beyond tf %r' % (sg['t'], sg['tf'])))
+            bad.append(('time-past-tf', 'the segment to tf = %r left the clock at t = %r, beyond its end time' % (sg['tf'], sg['t'])))
     return bad
 
 
